@@ -147,7 +147,7 @@ def run_property(prop, tier, seed, only=None, quiet=False):
     try:
         mod.run(ctx)
         for rid, r in sorted(ctx.rules.items()):
-            if r['count'] < r['min']:
+            if r['count'] < r['min'] and not any(o['rule'] == rid and o['status'] == 'violated' for o in ctx.obligations):
                 raise AnalysisBroken('rule %s matched %d instance(s), confirmed minimum is %d - the anchor moved or '
                                      'the rule no longer recognises the code shape' % (rid, r['count'], r['min']))
         if tier == 'thorough' and hasattr(mod, 'thorough'):
